@@ -8,7 +8,8 @@
    Translator rules: harness/vf/src_api.py; primitive semantics: Model/PrimsApi.v. *)
 From Coq Require Import String Ascii ZArith List Bool Lia.
 Import ListNotations.
-From Verif Require Import Base.StableSort Base.PyValue Model.Eval Model.PyMini Model.PrimsApi Proofs.PyMiniLemmas.
+From Verif Require Import Base.StableSort Base.PyValue Model.Eval Model.PyMini Model.PrimsApi Proofs.PyMiniLemmas
+  Proofs.PyValueProofs.
 Open Scope string_scope.
 Open Scope list_scope.
 Open Scope Z_scope.
@@ -22,3 +23,119 @@ Proof.
   - apply andb_true_iff in H as [H1 H2]. apply Z.eqb_eq in H1. apply IH in H2. congruence.
   - injection H as -> ->. now rewrite Z.eqb_refl, zeqb_refl.
 Qed.
+
+(* Python == on two str / two int values of the interpreter is code-point / integer equality *)
+Lemma val_eq_str a b : val_eq (VStr a) (VStr b) = zeqb a b.
+Proof.
+  unfold val_eq, StableSort.eqv. rewrite !val_le_str. revert b.
+  induction a as [|x a IH]; intros [|y b]; cbn; try reflexivity.
+  destruct (Z.ltb_spec x y), (Z.ltb_spec y x), (Z.eqb_spec x y); cbn; try lia; try reflexivity. apply IH.
+Qed.
+
+Lemma val_eq_int a b : val_eq (VInt a) (VInt b) = (a =? b).
+Proof.
+  unfold val_eq, StableSort.eqv. rewrite !val_le_int.
+  destruct (a =? b) eqn:E; [apply Z.eqb_eq in E; subst; rewrite Z.leb_refl; reflexivity|].
+  apply Z.eqb_neq in E. destruct (a <=? b) eqn:E1; destruct (b <=? a) eqn:E2; try reflexivity.
+  apply Z.leb_le in E1, E2. lia.
+Qed.
+
+Lemma pv_eqb_str a b : pv_eqb (PV (VStr a)) (PV (VStr b)) = zeqb a b.
+Proof. cbn. apply val_eq_str. Qed.
+
+Lemma key_eqb_eq x y : key_eqb x y = true -> x = y.
+Proof.
+  destruct x as [[]| | | |], y as [[]| | | |]; cbn; try discriminate.
+  - intros H. apply Z.eqb_eq in H. now subst.
+  - intros H. apply zeqb_eq in H. now subst.
+Qed.
+
+(* ---- dedupe (set construction) is invisible to all() / any() / emptiness of a filter *)
+Lemma dedupe_incl seen l x : In x (dedupe seen l) -> In x l.
+Proof.
+  revert seen; induction l as [|y t IH]; intros seen; cbn; [tauto|].
+  destruct (existsb (key_eqb y) seen); cbn; intros H; [right; eauto|].
+  destruct H as [->|H]; [now left|right; eauto].
+Qed.
+
+Lemma forallb_dedupe (f : pv -> bool) l : forall seen,
+  (forall y, In y seen -> f y = true) -> forallb f (dedupe seen l) = forallb f l.
+Proof.
+  induction l as [|x t IH]; intros seen Hs; cbn; [reflexivity|].
+  destruct (existsb (key_eqb x) seen) eqn:E.
+  - apply existsb_exists in E as (y & Hy & Ek). apply key_eqb_eq in Ek. subst y.
+    rewrite (Hs _ Hy). cbn. apply IH, Hs.
+  - cbn. destruct (f x) eqn:Fx; cbn; [|reflexivity].
+    apply IH. intros y [<-|Hy]; auto.
+Qed.
+
+Lemma existsb_dedupe (f : pv -> bool) l : forall seen,
+  (forall y, In y seen -> f y = false) -> existsb f (dedupe seen l) = existsb f l.
+Proof.
+  induction l as [|x t IH]; intros seen Hs; cbn; [reflexivity|].
+  destruct (existsb (key_eqb x) seen) eqn:E.
+  - apply existsb_exists in E as (y & Hy & Ek). apply key_eqb_eq in Ek. subst y.
+    rewrite (Hs _ Hy). cbn. apply IH, Hs.
+  - cbn. destruct (f x) eqn:Fx; cbn; [reflexivity|].
+    apply IH. intros y [<-|Hy]; auto.
+Qed.
+
+Lemma all_truthy_forallb (tr : pv -> bool) l :
+  (forall x, In x l -> pv_truthy x = Ok (tr x)) -> all_truthy l = Ok (forallb tr l).
+Proof.
+  induction l as [|x t IH]; intros H; cbn; [reflexivity|].
+  rewrite (H x (or_introl eq_refl)). cbn. destruct (tr x); cbn; [|reflexivity].
+  apply IH. intros y Hy. apply H. now right.
+Qed.
+
+Lemma any_truthy_existsb (tr : pv -> bool) l :
+  (forall x, In x l -> pv_truthy x = Ok (tr x)) -> any_truthy l = Ok (existsb tr l).
+Proof.
+  induction l as [|x t IH]; intros H; cbn; [reflexivity|].
+  rewrite (H x (or_introl eq_refl)). cbn. destruct (tr x); cbn; [reflexivity|].
+  apply IH. intros y Hy. apply H. now right.
+Qed.
+
+Lemma filter_nonempty {A} (g : A -> bool) l :
+  match filter g l with [] => false | _ => true end = existsb g l.
+Proof.
+  induction l as [|x t IH]; cbn; [reflexivity|]. destruct (g x); cbn; [reflexivity|apply IH].
+Qed.
+
+(* ---- list comprehensions (with or without a condition) as a top-level recursive function *)
+Section Comp.
+Variable call_ref : nat -> list pv -> pv.
+Variable prim : string -> list pv -> res pv.
+Notation eval := (PyMini.eval call_ref prim).
+
+Fixpoint comp_go (s1 : st) (elt : expr) (x : string) (cond : option expr) (l : list pv) : res (list pv) :=
+  match l with
+  | [] => Ok []
+  | v :: t =>
+      let sx := write s1 (TName x) v in
+      bind (match cond with
+            | None => Ok true
+            | Some c => bind (eval sx c) (fun p => pv_truthy (snd p))
+            end)
+        (fun keep : bool =>
+           if keep then bind (eval sx elt) (fun p => bind (comp_go s1 elt x cond t) (fun rs => Ok (snd p :: rs)))
+           else comp_go s1 elt x cond t)
+  end.
+
+Lemma eval_listcomp_gen elt x it cond s s1 l :
+  eval s it = Ok (s1, PList l) ->
+  eval s (XListComp elt x it cond) = bind (comp_go s1 elt x cond l) (fun vs => Ok (s1, PList vs)).
+Proof.
+  intros H. cbn [PyMini.eval]. rewrite H. cbn [bind].
+  match goal with |- bind ?a _ = bind ?b _ => assert (E : a = b) end.
+  { clear H. destruct cond as [c|]; induction l as [|v t IH]; try reflexivity; cbn [comp_go].
+    - destruct (eval (write s1 (TName x) v) c) as [[s2 cv]| |]; cbn [bind snd]; try reflexivity.
+      destruct (pv_truthy cv) as [[|]| |]; cbn [bind]; try reflexivity; [|exact IH].
+      destruct (eval (write s1 (TName x) v) elt) as [[s3 r]| |]; cbn [bind snd]; try reflexivity.
+      rewrite IH. reflexivity.
+    - cbn [bind] in IH |- *.
+      destruct (eval (write s1 (TName x) v) elt) as [[s3 r]| |]; cbn [bind snd]; try reflexivity.
+      rewrite IH. reflexivity. }
+  rewrite E. reflexivity.
+Qed.
+End Comp.
